@@ -42,9 +42,9 @@ structure BackupOut where
 
 /-- `DB.Backup(w, since)`: `stream.SinceTs = since; stream.Backup(w, since)`; generalised to
     `Stream.Backup` on a stream whose `SinceTs`/`Prefix` the caller chose. -/
-def backupRun (merged : List Ent) (pfx : Bytes) (since sinceTs now : Nat) (ranges : List KeyRange) (rts : List Nat) :
+def backupRun (merged : List Ent) (pfx : Bytes) (since sinceTs now : Nat) (ranges : List KeyRange) (ts : Nat) :
     BackupOut :=
-  let lists := streamRun merged (backupCfg pfx since sinceTs now) now ranges rts
+  let lists := streamRun merged (backupCfg pfx since sinceTs now) now ranges ts
   { lists := lists, maxVersion := maxVersionOf lists.flatten }
 
 /-! ## Load -/
